@@ -805,6 +805,77 @@ def scen_init_event(env, order, etype_kind):
         env.check('restored-state', out['ok'] and bool(env.holds(eq_(out['cnt'], exp))), info=lambda: (order, etype_kind, out, exp))
 
 
+def scen_stop_during_init(env, kind):
+    """a regular stop (shutdown) while another block is still in its asynchronous initialisation, on a first run: the
+    persistent block has not been initialised yet and has no state - nothing may be stored for it that a restart
+    would take for a saved state (the block must come up from its constructor arguments / initdef)"""
+    clock = WallClock()
+    with clock:
+        if kind in ('timedate', 'timespan'):
+            # the cron service reads the real wall clock: concrete instants here (its timers must not be compared
+            # with symbolic ones), the stop falls into the asynchronous initialisation
+            d, t_stop = 5.0, 2.0
+        else:
+            d = env.real('init_duration', 0, 10, lo_open=True)
+            t_stop = env.real('t_stop', 0, 10)
+
+        def build():
+            class Slow(edzed.AddonAsync, edzed.SBlock):
+                async def init_async(self):
+                    await asyncio.sleep(d)
+                    self.set_output(1)
+            Slow('slow', init_timeout=20.0)
+            if kind == 'timedate':
+                return edzed.TimeDate('blk', times='0:00-0:00', persistent=True), edzed.TimeDate.parse('0:00-0:00', None, None)
+            if kind == 'timespan':
+                return (edzed.TimeSpan('blk', span='2000-01-01 0:00 / 2100-01-01 0:00', persistent=True),
+                        edzed.TimeSpan.parse('2000-01-01 0:00 / 2100-01-01 0:00'))
+            if kind == 'input':
+                return edzed.Input('blk', initdef=5, persistent=True), 5
+            if kind == 'counter':
+                return edzed.Counter('blk', initdef=5, persistent=True), 5
+            return edzed.Timer('blk', t_on=7.0, persistent=True), ('off', None, {})
+        circ = fresh_circuit()
+        store = PickleStore({})
+        circ.set_persistent_data(store)
+        blk, exp_init = build()
+        res = {}
+
+        async def run1():
+            loop = asyncio.get_running_loop()
+            task = asyncio.create_task(circ.run_forever())
+            await asyncio.sleep(t_stop)
+            res['initialised_at_stop'] = blk.is_initialized()
+            await circ.shutdown()
+            clock.frozen_loop_time = loop.time()
+        vloop.run(run1())
+        early = bool(t_stop < d)        # forks
+        if not early:
+            if not bool(t_stop > d):
+                return              # exact tie between the stop request and the end of the initialisation: nothing claimed
+            env.note('stopped-after-init')
+            env.check('saved-at-stop', state_eq(store.get(blk.key), exp_init) if not isinstance(exp_init, dict) and not isinstance(exp_init, list)
+                      else store.get(blk.key) == exp_init, info=lambda: store)
+            return
+        env.note('stopped-during-async-init')
+        env.check('not-initialised-at-stop', res['initialised_at_stop'] is False)
+        circ2 = fresh_circuit()
+        store2 = PickleStore(snap(store))
+        circ2.set_persistent_data(store2)
+        clock.offset = 100.0
+        blk2, _ = build()
+
+        async def run2():
+            asyncio.create_task(circ2.run_forever())
+            await circ2.wait_init()
+            res['state2'] = blk2.get_state()
+            res['out2'] = blk2.output
+            await circ2.shutdown()
+        vloop.run(run2())
+        env.check('restored-state', res['state2'] == exp_init and (kind not in ('timedate', 'timespan') or res['out2'] is True),
+                  info=lambda: (kind, store, res))
+
+
 def scen_timeblocks(env, kind, crash, ek):
     """TimeDate / TimeSpan: the state is the (normalised) configuration; 'reconfig' events are saved, a restart
     restores the saved configuration instead of the constructor's (concrete configurations, real datetime)"""
@@ -866,6 +937,9 @@ def shards(tier):
            {'name': 'failed start: unresolved name', 'scenario': 'scen_failed_start', 'params': {'kind': 'resolve'}},
            {'name': 'failed start: task fails at once', 'scenario': 'scen_failed_start', 'params': {'kind': 'task-fails-at-once'}},
            {'name': 'failed start: aborted at the first await', 'scenario': 'scen_failed_start', 'params': {'kind': 'abort-at-once'}}]
+    for kind in ('timedate', 'timespan', 'input', 'counter', 'timer'):
+        out.append({'name': f'stop during the asynchronous initialisation: {kind}', 'scenario': 'scen_stop_during_init',
+                    'params': {'kind': kind}, 'cost': 3})
     for kind, evs in (('fsm', ('poke', 'disarm')), ('timer', ('start', 'start-refused', 'stop'))):
         for le in evs:
             out.append({'name': f'event during the clean-up: {kind} {le}', 'scenario': 'scen_cleanup_event',
